@@ -7,7 +7,7 @@ from hypothesis import strategies as st
 from .. import gens
 from ..lib import GA, Violation, call, canonicalize_molecule, mol_to_graph
 from ..mol import Mol, case_digest
-from .c01 import describe, molfile_ok
+from .c01 import describe, molfile_ok, route_for
 
 ID = "C04"
 RULE = (
@@ -31,11 +31,11 @@ def budget(tier):
 
 @st.composite
 def strategy_(draw, tier):
-    mol = draw(gens.mols(tier))
+    mol = draw(st.one_of(gens.mols(tier), gens.mols(tier), gens.mols(tier), gens.mols(tier, wide=True)))
     n, m = len(mol["atoms"]), len(mol["bonds"])
     k = 2 if tier == "quick" else 4
     return {"mol": mol, "tfs": [draw(gens.listing(n, m)) for _ in range(k)],
-            "route": draw(st.sampled_from(["graph", "graph", "graph", "v3000", "v2000"])), "style_seed": draw(st.integers(0, 1000))}
+            "route": draw(st.sampled_from(["graph", "graph", "graph", "v3000", "v2000", "tucan", "mixed"])), "style_seed": draw(st.integers(0, 1000))}
 
 
 def strategy(tier):
@@ -56,9 +56,9 @@ def view(c, n, sub):
 def check(case, stats):
     mol = Mol.from_json(case["mol"])
     n = mol.n
-    route = case["route"] if molfile_ok(mol, case["route"]) else "graph"
+    route = case["route"] if (case["route"] == "mixed" or molfile_ok(mol, case["route"])) else "graph"
     ident = {"order": list(range(n)), "keys": list(range(1, n + 1)), "bond_order": list(range(mol.m)), "flips": [False] * mol.m}
-    g0 = describe(mol, ident, route, case["style_seed"])
+    g0 = describe(mol, ident, route_for(route, -1, mol), case["style_seed"])
     c0 = call("canonicalize", canonicalize_molecule, g0)
     nm0, e0 = view(c0, n, "base")
     stats.evaluated()
@@ -66,7 +66,7 @@ def check(case, stats):
     differs = False
     for k, tf in enumerate(case["tfs"]):
         pm = mol.permute(tf["pi"])
-        g = describe(pm, tf, route, case["style_seed"])
+        g = describe(pm, tf, route_for(route, k, mol), case["style_seed"])
         c = call("canonicalize", canonicalize_molecule, g)
         nm, e = view(c, n, "permuted")
         stats.evaluated()
